@@ -1,10 +1,12 @@
 import Cuke.Model.Reporters
+import Cuke.Lemmas.BasicWriter
 /-!
 # C14 — Built-in reports, parsed back, state exactly the facts of the event stream
 Models: `Cuke.Rep.ltRun` (libtest), `Cuke.Rep.junitRun`, `Cuke.Rep.jsonRun`, and `Cuke.Rep.facts`.
 Record-level logic is proved here; byte-level well-formedness / escaping is TESTED by parsing the real
-output back (serde_json, XML structure), not proved. The plain terminal writer is covered by the same
-parse-back through JUnit's `system-out` only (no model yet).
+output back (serde_json, XML structure), not proved. The plain terminal writer `writer::Basic` is modelled
+in non-terminal mode (`Cuke.Rep.basicRun`, Cuke/Model/BasicWriter.lean): printed blocks as records, the
+indentation counter as its only state; its text is parsed back block by block by the harness.
 -/
 namespace Cuke.C14
 open Cuke Cuke.Rep List
@@ -206,6 +208,77 @@ theorem junit_case_status (pre : List ScenEv) :
     (∀ i e, caseStatus (pre ++ [.step i (.failed e), .hook .after .started, .hook .after .passed]) = some (.failure false)) ∧
     (∀ i p, caseStatus (pre ++ [.step i .passed, .hook .after .started, .hook .after (.failed p)]) = some (.failure true)) := by
   refine ⟨?_, ?_, ?_, ?_, ?_, ?_⟩ <;> intros <;> simp [caseStatus, reverse_append, find?]
+
+/-! ## plain terminal writer (`writer::Basic`, non-terminal mode) -/
+
+/-- **Every executed step, failed hook and parser error is printed exactly once, with the right status,
+    in stream order — and nothing else is** (for EVERY stream: this part of the writer is stateless). -/
+theorem basic_states_raw_facts (evs : List Ev) :
+    (basicRun evs).2.filterMap rawOfLine = evs.filterMap rawOfEv := by
+  rw [basicRun_eq]
+  suffices ∀ s, (basicFrom s evs).2.filterMap rawOfLine = evs.filterMap rawOfEv from this {}
+  induction evs with
+  | nil => intro s; simp [basicFrom]
+  | cons e es ih =>
+    intro s
+    rw [basicFrom_cons]
+    simp only [filterMap_append, handle_raw, ih]
+    cases h : rawOfEv e <;> simp [filterMap_cons, h]
+
+/-- reading the report of a stream that continues a normalized canonical run -/
+theorem basic_read_from (q : SeqSt) (b : Basic) (c : BCtx) (evs : List Ev) (h : Tied q b c)
+    (hs : SeqOk q evs = true) :
+    (readFrom c (basicFrom b evs).2).2 = evs.filterMap bfactOf := by
+  induction evs generalizing q b c with
+  | nil => simp [basicFrom, readFrom_nil]
+  | cons e es ih =>
+    simp only [SeqOk] at hs
+    cases hq : q.step e with
+    | none => simp [hq] at hs
+    | some q' =>
+      simp only [hq] at hs
+      obtain ⟨ht, hf⟩ := tied_step q q' b c e h hq
+      rw [basicFrom_cons, readFrom_append]
+      simp only [hf, ih q' _ _ ht hs]
+      cases hb : bfactOf e <;> simp [filterMap_cons, hb]
+
+/-- **Read back, the plain-text report states exactly the facts of the run, each under its own
+    feature / rule / scenario (and retry attempt)**: for every normalized canonical stream (`SeqOk`: what
+    `Normalize` hands to the writer), a reader who attributes each `✔ / ? / ✘` block to the headers above it
+    (a scenario 4 columns deep is inside the last `Rule:`) recovers `bfactOf` of every event, in order. -/
+theorem basic_report_read_back (evs : List Ev) (h : SeqOk {} evs = true) :
+    readReport (basicRun evs).2 = evs.filterMap bfactOf := by
+  rw [readReport_eq, basicRun_eq]
+  exact basic_read_from {} {} {} evs
+    ⟨by simp, fun _ => rfl, by simp, by simp, by simp⟩ h
+
+/-- the indentation counter is back at the feature level whenever no scenario / rule is open — so the next
+    `Scenario:` header is printed at column 2, or 4 inside a rule (what the reader's rule relies on) -/
+theorem basic_indent_tied (q q' : SeqSt) (b : Basic) (c : BCtx) (e : Ev) (h : Tied q b c) (hs : q.step e = some q') :
+    (b.handle e).1.indent =
+      (if q'.rule.isSome then 2 else 0) + (if q'.scen.isSome then 2 else 0) + (if q'.opened then 4 else 0) :=
+  (tied_step q q' b c e h hs).1.indent
+
+/-- attribution needs the stream to be normalized: two interleaved scenarios are read back wrongly
+    (which is why the writer must sit behind `Normalize`) -/
+example : readReport (basicRun [.featStarted 1, .scen ⟨1, none, 2⟩ none .started, .scen ⟨1, none, 3⟩ none .started,
+      .scen ⟨1, none, 2⟩ none (.step 0 .started), .scen ⟨1, none, 2⟩ none (.step 0 .passed)]).2 ≠
+    [.featStarted 1, .scen ⟨1, none, 2⟩ none .started, .scen ⟨1, none, 3⟩ none .started,
+      .scen ⟨1, none, 2⟩ none (.step 0 .started), .scen ⟨1, none, 2⟩ none (.step 0 .passed)].filterMap bfactOf := by
+  decide
+
+/-- non-vacuity: a normalized stream with a rule, a retry, a failing step and a failing hook -/
+def basicEx : List Ev :=
+  [.started, .featStarted 1, .scen ⟨1, none, 2⟩ none .started, .scen ⟨1, none, 2⟩ none (.step 0 .started),
+   .scen ⟨1, none, 2⟩ none (.step 0 .passed), .scen ⟨1, none, 2⟩ none .finished,
+   .ruleStarted 1 5, .scen ⟨1, some 5, 6⟩ (some ⟨1, 1⟩) .started, .scen ⟨1, some 5, 6⟩ (some ⟨1, 1⟩) (.bg 0 .started),
+   .scen ⟨1, some 5, 6⟩ (some ⟨1, 1⟩) (.bg 0 (.failed (.panic 2))), .scen ⟨1, some 5, 6⟩ (some ⟨1, 1⟩) (.hook .after .started),
+   .scen ⟨1, some 5, 6⟩ (some ⟨1, 1⟩) (.hook .after (.failed 0)), .scen ⟨1, some 5, 6⟩ (some ⟨1, 1⟩) .finished,
+   .ruleFinished 1 5, .featFinished 1, .finished]
+
+example : SeqOk {} basicEx = true ∧
+    (basicRun basicEx).2 = [.feature 1, .scenario 2 2 none, .step 3 false 0 .passed none, .rule 0 5,
+      .scenario 4 6 (some (1, 2)), .step 5 true 0 (.failed (.panic 2)) (some 1), .hook 5 false 0 1] := by decide
 
 /-! ## Cucumber JSON: duplicate feature objects for path-less features (finding F-C14b) -/
 
